@@ -10,6 +10,7 @@ use crate::{
 };
 use barter::{
     EngineEvent,
+    execution::builder::ExecutionBuilder,
     engine::{
         Engine, Processor,
         clock::EngineClock,
@@ -538,6 +539,9 @@ pub struct InstC4 {
     pub base: usize,
     pub quote: usize,
     pub perp: bool,
+    /// settlement asset of a perpetual (index into the asset pool); None = the quote asset
+    #[serde(default)]
+    pub settle: Option<usize>,
 }
 
 #[derive(Clone, Debug, Serialize, Deserialize, PartialEq)]
@@ -553,6 +557,9 @@ pub enum OpC4 {
 
 #[derive(Clone, Debug, Serialize, Deserialize)]
 pub struct ScenarioC4 {
+    /// exchange slots that are tracked (have instruments) but get no execution link
+    #[serde(default)]
+    pub untraded: Vec<usize>,
     pub insts: Vec<InstC4>,
     pub ops: Vec<OpC4>,
     pub tokio_seed: u64,
@@ -574,14 +581,24 @@ impl<E> Processor<&E> for NoopClock {
 }
 
 fn c4_instruments(sc: &ScenarioC4) -> IndexedInstruments {
+    let mut seen: Vec<(usize, usize, usize, bool)> = Vec::new();
     let v: Vec<Instrument<ExchangeId, barter_instrument::asset::Asset>> = sc
         .insts
         .iter()
         .filter(|i| i.base != i.quote)
+        .filter(|i| {
+            let k = (i.ex % 4, i.base % 5, i.quote % 5, i.perp);
+            if seen.contains(&k) {
+                false
+            } else {
+                seen.push(k);
+                true
+            }
+        })
         .map(|i| {
             let (b, q) = (ASSET_POOL[i.base % 5], ASSET_POOL[i.quote % 5]);
             if i.perp {
-                perp(EXS[i.ex % 4], b, q)
+                perp_settled(EXS[i.ex % 4], b, q, i.settle.map(|s| ASSET_POOL[s % 5]).unwrap_or(q))
             } else {
                 spot(EXS[i.ex % 4], b, q)
             }
@@ -622,20 +639,27 @@ impl Sim for SimC4 {
             for _ in 0..n {
                 let base = rng.usize(3);
                 let quote = 3 + rng.usize(2);
+                let is_perp = rng.chance(1, 4);
                 let cand = InstC4 {
                     ex: e,
                     base,
                     quote,
-                    perp: rng.chance(1, 4),
+                    perp: is_perp,
+                    // sometimes settled in an asset that is neither underlying
+                    settle: if is_perp && rng.chance(1, 2) { Some(rng.usize(5)) } else { None },
                 };
-                if !insts.contains(&cand) {
+                // one instrument per (exchange, name): the settlement asset is not part of the name
+                if !insts.iter().any(|i: &InstC4| i.ex == cand.ex && i.base == cand.base && i.quote == cand.quote && i.perp == cand.perp) {
                     insts.push(cand);
                 }
             }
         }
         // any definition order
         rng.shuffle(&mut insts);
+        // tracked-but-not-traded exchanges (no execution link), never all of them
+        let untraded: Vec<usize> = if n_ex > 1 && rng.chance(1, 3) { vec![rng.usize(n_ex)] } else { vec![] };
         let tmp = ScenarioC4 {
+            untraded: vec![],
             insts: insts.clone(),
             ops: vec![],
             tokio_seed: 0,
@@ -666,6 +690,7 @@ impl Sim for SimC4 {
             });
         }
         ScenarioC4 {
+            untraded,
             insts,
             ops,
             tokio_seed: rng.next_u64(),
@@ -756,6 +781,9 @@ impl Sim for SimC4 {
         if n_ex > 1 {
             stats.fault("multi_exchange_topology");
         }
+        if !sc.untraded.is_empty() {
+            stats.fault("untraded_exchange_without_link");
+        }
         if violation.is_some() {
             return Outcome {
                 violation,
@@ -778,56 +806,52 @@ impl Sim for SimC4 {
             let mut probes: Vec<&'static str> = Vec::new();
             let mut clients: Vec<SimClient> = Vec::new();
             let mut acct_txs = Vec::new();
-            let mut req_txs: Vec<(ExchangeId, Option<UnboundedTx<ExecutionRequest>>)> = Vec::new();
-            let mut handles = Vec::new();
-            let (merged_tx, mut merged_rx) = mpsc_unbounded::<AccountStreamEvent>();
-            for (e, ex) in instruments.exchanges().iter().enumerate() {
-                let behav: HashMap<String, Behav> = HashMap::new();
+            let mut traded: Vec<bool> = Vec::new();
+            // the real builder: one ExecutionManager (init + run) per traded exchange, placeholders
+            // for tracked-but-untraded ones, merged account channel
+            let mut builder = ExecutionBuilder::new(&instruments);
+            for ex in instruments.exchanges().iter() {
+                let mut b = HashMap::new();
+                for k in 0..ops.len() {
+                    b.insert(format!("q{k}"), Behav { delay_ms: Some(delay), resp: Resp::OkOpen });
+                }
                 let (client, acct_tx) = SimClient::new_client(
                     ex.value,
-                    behav,
+                    b,
                     UnindexedAccountSnapshot {
                         exchange: ex.value,
                         balances: vec![],
                         instruments: vec![],
                     },
                 );
-                // default behaviour: Ok after `delay`
-                let client = {
-                    let inner = Arc::try_unwrap(client.0).ok().expect("unique");
-                    let mut b = HashMap::new();
-                    for k in 0..ops.len() {
-                        b.insert(format!("q{k}"), Behav { delay_ms: Some(delay), resp: Resp::OkOpen });
-                    }
-                    SimClient(Arc::new(ClientInner { behav: b, ..inner }))
-                };
-                let map = generate_execution_instrument_map(&instruments, ex.value).expect("map");
-                let indexer = AccountEventIndexer::new(Arc::new(map));
-                let (req_tx, req_rx) = mpsc_unbounded::<ExecutionRequest>();
-                let init = ExecutionManager::init(
-                    req_rx.into_stream(),
-                    Duration::from_millis(1000),
-                    Arc::new(client.clone()),
-                    indexer,
-                    ReconnectionBackoffPolicy {
-                        backoff_ms_initial: 100,
-                        backoff_multiplier: 2,
-                        backoff_ms_max: 1000,
-                    },
-                )
-                .await;
-                let Ok((manager, account_stream)) = init else {
-                    return (Some(("X0_manager_init".to_string(), e, format!("ExecutionManager::init failed for exchange {e}"))), lines, sigs, probes, 0);
-                };
-                handles.push(tokio::spawn(manager.run()));
-                tokio::spawn(account_stream.forward_to(merged_tx.clone()));
+                let slot = EXS.iter().position(|x| *x == ex.value).unwrap_or(0);
+                let is_traded = !sc.untraded.contains(&slot);
+                if is_traded {
+                    let timeout = Duration::from_millis(1000);
+                    let added = match slot {
+                        0 => builder.add_live::<SimClientN<0>>(client.clone(), timeout),
+                        1 => builder.add_live::<SimClientN<1>>(client.clone(), timeout),
+                        2 => builder.add_live::<SimClientN<2>>(client.clone(), timeout),
+                        _ => builder.add_live::<SimClientN<3>>(client.clone(), timeout),
+                    };
+                    builder = match added {
+                        Ok(b) => b,
+                        Err(e) => return (Some(("X0_manager_init".to_string(), slot, format!("ExecutionBuilder::add_live failed for {}: {e}", ex.value))), lines, sigs, probes, 0),
+                    };
+                }
                 clients.push(client);
                 acct_txs.push(acct_tx);
-                req_txs.push((ex.value, Some(req_tx)));
+                traded.push(is_traded);
             }
+            let execution = match builder.build().init().await {
+                Ok(x) => x,
+                Err(e) => return (Some(("X0_manager_init".to_string(), 0, format!("ExecutionBuild::init failed: {e}"))), lines, sigs, probes, 0),
+            };
+            let handles = execution.handles.managers;
+            let mut merged_rx = execution.account_channel.rx;
+            let _keep_forwarders = execution.handles.account_to_engines;
             let state = build_state(&instruments, TradingState::Disabled, &[]);
-            let txs: MultiExchangeTxMap<UnboundedTx<ExecutionRequest>> = req_txs.iter().cloned().collect();
-            let mut engine: EngC4 = Engine::new(NoopClock, state, txs, DefaultStrategy::default(), DefaultRiskManager::default());
+            let mut engine: EngC4 = Engine::new(NoopClock, state, execution.execution_txs, DefaultStrategy::default(), DefaultRiskManager::default());
 
             // let the initial account snapshots flow in
             tokio::time::sleep(Duration::from_millis(1)).await;
@@ -868,6 +892,25 @@ impl Sim for SimC4 {
                         let _ = engine.process(EngineEvent::<DataKind>::Command(cmd));
                         // let the manager, the client and the forwarder run
                         tokio::time::sleep(Duration::from_millis(delay + 1)).await;
+                        if !traded[ex] {
+                            // tracked but not traded: the request must reach nobody
+                            probes.push("request_for_untraded_exchange");
+                            for (e, c) in clients.iter().enumerate() {
+                                let new: Vec<RecvReq> = c.0.received.lock().unwrap()[recv_before[e]..].to_vec();
+                                if !new.is_empty() {
+                                    return (Some(("X4_request_reached_wrong_exchange".to_string(), k, format!("request for instrument {inst} of exchange {ex}, which has no execution link, reached the client of exchange {e}: {new:?}"))), lines, sigs, probes, 0);
+                                }
+                            }
+                            for h in &handles {
+                                if h.is_finished() {
+                                    return (Some(("X3_manager_died".to_string(), k, format!("an ExecutionManager task ended after a request for the untraded exchange {ex}"))), lines, sigs, probes, 0);
+                                }
+                            }
+                            if merged_rx.rx.try_recv().is_ok() {
+                                return (Some(("X6_response_attribution".to_string(), k, format!("a response arrived for a request addressed to the untraded exchange {ex}"))), lines, sigs, probes, 0);
+                            }
+                            continue;
+                        }
                         for h in &handles {
                             if h.is_finished() {
                                 return (Some(("X3_manager_died".to_string(), k, format!("an ExecutionManager task ended while handling a request for instrument {inst} ({} on exchange {ex})", ii.value.name_exchange))), lines, sigs, probes, start.elapsed().as_millis() as u64);
@@ -923,6 +966,12 @@ impl Sim for SimC4 {
                     OpC4::Balance { asset, total } => {
                         let a = &instruments.assets()[*asset];
                         let e = instruments.find_exchange_index(a.value.exchange).unwrap().0;
+                        if !traded[e] {
+                            continue;
+                        }
+                        if !instruments.instruments().iter().any(|i| i.value.exchange.key.0 == e && (i.value.underlying.base == a.key || i.value.underlying.quote == a.key)) {
+                            probes.push("balance_for_settlement_only_asset");
+                        }
                         let ev = UnindexedAccountEvent {
                             exchange: a.value.exchange,
                             kind: AccountEventKind::BalanceSnapshot(Snapshot(AssetBalance {
@@ -959,6 +1008,9 @@ impl Sim for SimC4 {
                     OpC4::OrderReport { inst } | OpC4::Trade { inst, .. } => {
                         let ii = &instruments.instruments()[*inst];
                         let e = ii.value.exchange.key.0;
+                        if !traded[e] {
+                            continue;
+                        }
                         let kind = match op {
                             OpC4::OrderReport { .. } => AccountEventKind::OrderSnapshot(Snapshot(Order {
                                 key: OrderKey {
@@ -1030,6 +1082,9 @@ impl Sim for SimC4 {
             }
             let end = start.elapsed().as_millis() as u64;
             for h in handles {
+                h.abort();
+            }
+            for h in _keep_forwarders {
                 h.abort();
             }
             (None, lines, sigs, probes, end)
@@ -1108,13 +1163,15 @@ impl Sim for SimC4 {
         vec!["ExecutionClient per exchange (records requests, emits account events by name)"]
     }
     fn fault_kinds(&self) -> Vec<&'static str> {
-        vec!["multi_exchange_topology"]
+        vec!["multi_exchange_topology", "untraded_exchange_without_link"]
     }
     fn probe_kinds(&self) -> Vec<&'static str> {
         vec![
             "request_to_non_first_exchange",
             "asset_name_shared_between_exchanges",
             "instrument_name_shared_between_exchanges",
+            "request_for_untraded_exchange",
+            "balance_for_settlement_only_asset",
         ]
     }
     fn assumptions(&self) -> Vec<String> {
